@@ -39,6 +39,25 @@ theorem normFV_one_absent (f : Fld) (v : Val) (hig : f.ignored = false) (hz : (!
     normFV f (.one v) = zeroFld f := by
   simp [normFV, hig, hz]
 
+/-- an optional field holding its Go zero value: absent on the wire, and Decode puts the same zero value back -/
+theorem zero_one_hz (f : Fld) (v : Val) (hr : f.required = false) (hzf : FV.one v = zeroFld f) :
+    (!f.required && specZero f.ty v) = true := by
+  have h := specZeroFV_zero f
+  rw [← hzf] at h
+  simp only [specZeroFV] at h
+  simp [hr, h]
+
+theorem normFV_zero_one (f : Fld) (v : Val) (hig : f.ignored = false) (hr : f.required = false) (hzf : FV.one v = zeroFld f) :
+    normFV f (.one v) = .one v := by
+  rw [normFV_one_absent f v hig (zero_one_hz f v hr hzf), hzf]
+
+/-- in the branch where the field is present on the wire, the relaxed well-formedness is the strict one -/
+theorem wf_of_present (f : Fld) (v : Val) (h : (f.required = false ∧ FV.one v = zeroFld f) ∨ WFv f.ty v)
+    (hz : ¬ (!f.required && specZero f.ty v) = true) : WFv f.ty v := by
+  rcases h with ⟨hr, hzf⟩ | h
+  · exact absurd (zero_one_hz f v hr hzf) hz
+  · exact h
+
 theorem normFV_one_present (f : Fld) (v : Val) (hig : f.ignored = false) (hz : ¬ (!f.required && specZero f.ty v) = true) :
     normFV f (.one v) = .one (normVal f.ty v) := by
   have : (!f.required && specZero f.ty v) = false := by simpa using hz
@@ -89,7 +108,7 @@ mutual
         simp [specZeroFV, hz.2]
       · rw [normFV_one_present f v hig hz]
         simp only [specZeroFV]
-        exact specZero_norm f.ty v hwv
+        exact specZero_norm f.ty v (wf_of_present f v hwv hz)
     | .many vs, hw => by
       simp only [WFfv] at hw
       obtain ⟨_, hig, _, _⟩ := hw
@@ -161,10 +180,19 @@ mutual
           | struct sd =>
             have := specZero_zeroSD sd
             simp [zeroFld, canonFV, Fld.skip, Fld.tag, Fld.required, Fld.ty, this]
-          | dyn a b => cases v <;> simp [WFv, Fld.ty] at hwv
-          | unsupported => cases v <;> simp [WFv, Fld.ty] at hwv
+          | dyn a b =>
+            rcases hwv with ⟨_, hzf⟩ | hwv
+            · simp [zeroFld] at hzf
+            · cases v <;> simp [WFv, Fld.ty] at hwv
+          | unsupported =>
+            rcases hwv with ⟨_, hzf⟩ | hwv
+            · simp only [zeroFld, Bool.false_eq_true, if_false, FV.one.injEq] at hzf
+              subst hzf
+              simp [zeroFld, canonFV, Fld.skip, Fld.tag, Fld.required, Fld.ty, specZero]
+            · cases v <;> simp [WFv, Fld.ty] at hwv
       · rw [normFV_one_present f v hig hz]
         have hz' : (!f.required && specZero f.ty v) = false := by simpa using hz
+        have hwv := wf_of_present f v hwv hz
         simp only [canonFV, ignored_or, hig, specZero_norm f.ty v hwv, hz', canonVal_norm f.tag f.ty v hwv]
     | .many vs, hw => by
       simp only [WFfv] at hw
